@@ -438,6 +438,30 @@ def leaves(e):
     return res
 
 
+_PURE = ("min", "max", "leading_zeros", "trailing_zeros", "wrapping_mul", "wrapping_add", "wrapping_sub", "rotate_left", "div_ceil",
+         "sqrt", "ceil", "floor", "ln", "log2", "powf", "exp2", "saturating_sub")
+
+
+def top_leaves(e):
+    """maximal leaves only: the traversal does not descend below a leaf"""
+    out = {}
+
+    def go(x):
+        if not isinstance(x, tuple) or not x:
+            return
+        if x[0] in ("param", "field", "var", "index", "len", "static", "discr", "fieldat") or (x[0] == "call" and x[1].rsplit("::", 1)[-1] not in _PURE):
+            out[leaf_key(x)] = x
+            return
+        for y in x[1:]:
+            if isinstance(y, tuple):
+                go(y)
+            elif isinstance(y, list):
+                for z in y:
+                    go(z)
+    go(e)
+    return out
+
+
 def equivalent(e, spec, envs, tol=0.0):
     """compare extracted expression e with python callable spec(env) on every env.
     returns (ok, counterexample | None, n_evaluated, uneval_reason | None)"""
